@@ -160,7 +160,19 @@ impl StepWorld {
     }
   }
 
+  /// A step world on an existing (e.g. banked, file-loaded) core. `rebuild` is not available
+  /// for such a world: the caller must keep write effects restorable (RAM only).
+  pub fn from_core(core: Box<Core>) -> StepWorld {
+    let mem = &core.memory as *const MemoryAreas;
+    StepWorld { core, ov: Overlay { mem, writes: Vec::with_capacity(8), olds: Vec::with_capacity(8) }, dirty_io: true }
+  }
+
   pub fn rebuild(&mut self) {
+    if self.dirty_io {
+      // banked world: cannot be rebuilt from scratch here; leave it (callers of banked worlds
+      // only run cases whose writes go to RAM and are undone from the recorded old values)
+      return;
+    }
     *self = StepWorld::new();
   }
 
